@@ -8,6 +8,7 @@ import (
 
 	"ergo.services/ergo/act"
 	"ergo.services/ergo/gen"
+	"ergo.services/ergo/net/edf"
 
 	"verifsim/simkit"
 )
@@ -15,7 +16,7 @@ import (
 // C19 Pool dispatch: each request to exactly one live worker.
 
 type C19Op struct {
-	Kind string `json:"kind"` // send | slow | call | high | killworker | panicworker | add | remove
+	Kind string `json:"kind"` // send | slow | call | calldie (the worker answers and terminates normally) | high | killworker | panicworker | add | remove
 	N    int    `json:"n"`
 }
 
@@ -24,11 +25,21 @@ type C19Case struct {
 	Mailbox int       `json:"mailbox"` // worker mailbox size, 0 unbounded
 	Slow    bool      `json:"slow"`
 	Clients [][]C19Op `json:"clients"` // client 0.. are actors (can call)
+	// RemoteLast: the last client lives on a second node and reaches the pool over the simulated network
+	RemoteLast bool `json:"remote_last,omitempty"`
 }
 
 type c19 struct{}
 
 func init() { Register(c19{}) }
+
+func init() {
+	for _, v := range []any{c19Item{}, c19Ctl{}} {
+		if err := edf.RegisterTypeOf(v); err != nil && err != gen.ErrTaken {
+			panic(err)
+		}
+	}
+}
 
 func (c19) ID() string    { return "C19" }
 func (c19) Level() string { return "exploration" }
@@ -55,11 +66,12 @@ func (c19) Generate(r *simkit.Rand, tier string) any {
 	for i, n := 0, r.Range(1, 3); i < n; i++ {
 		var ops []C19Op
 		for j, m := 0, r.Range(2, maxOps); j < m; j++ {
-			k := simkit.Pick(r, "send", "send", "send", "slow", "call", "call", "high", "killworker", "killworker", "panicworker", "add", "remove")
+			k := simkit.Pick(r, "send", "send", "send", "slow", "call", "call", "high", "killworker", "killworker", "panicworker", "add", "remove", "call", "calldie")
 			ops = append(ops, C19Op{Kind: k, N: r.Range(1, 2)})
 		}
 		c.Clients = append(c.Clients, ops)
 	}
+	c.RemoteLast = r.Chance(0.25)
 	return c
 }
 
@@ -80,12 +92,18 @@ func (c19) Shrink(cc any) []any {
 			out = append(out, n)
 		}
 	}
+	if c.RemoteLast {
+		n := cloneJSON(c)
+		n.RemoteLast = false
+		out = append(out, n)
+	}
 	return out
 }
 
 type c19Item struct {
 	ID   int
 	Slow bool // the worker stays in the handler for 300 simulated ms
+	Die  bool // (call) the worker answers and terminates with reason normal
 }
 type c19Ctl struct {
 	Do string
@@ -94,11 +112,28 @@ type c19Ctl struct {
 
 func (c19) Run(e *simkit.Env, cc any) {
 	c := cc.(*C19Case)
-	n := simkit.StartLocalNode(e, "c19@sim", nil)
-	if n == nil {
-		return
+	var n, rn gen.Node // rn: the node of the remote client
+	if c.RemoteLast {
+		sn := simkit.NewSimNet(e)
+		n = simkit.StartNetNode(e, sn, simkit.NetNodeOptions{Name: "a@h1", Cookie: "k"})
+		rn = simkit.StartNetNode(e, sn, simkit.NetNodeOptions{Name: "b@h2", Cookie: "k"})
+		if n == nil || rn == nil {
+			return
+		}
+		defer simkit.StopNode(e, rn, false, 0)
+		defer simkit.StopNode(e, n, false, 0)
+		if _, err := rn.Network().GetNode("a@h1"); err != nil {
+			e.Infra("connect b -> a: " + err.Error())
+			return
+		}
+		e.Probe("remote-client")
+	} else {
+		n = simkit.StartLocalNode(e, "c19@sim", nil)
+		if n == nil {
+			return
+		}
+		defer simkit.StopNode(e, n, false, 0)
 	}
-	defer simkit.StopNode(e, n, false, 0)
 	var mu sync.Mutex
 	handled := map[int]int{}      // item id -> times handled by a worker
 	byPool := map[int]int{}       // high priority items handled by the pool itself
@@ -158,6 +193,18 @@ func (c19) Run(e *simkit.Env, cc any) {
 	wh.Call = func(p *Probe, from gen.PID, ref gen.Ref, req any) (any, error) {
 		if v, ok := req.(c19Item); ok {
 			see(from, v.ID)
+			if v.Die {
+				// the worker answers this request and leaves: whatever else is queued at it is lost
+				// with it (counted like a crash), this request has been answered
+				mu.Lock()
+				crashed++
+				if s := e.Step(); s > lastWorkerTerm {
+					lastWorkerTerm = s
+				}
+				mu.Unlock()
+				e.Probe("worker-crashed")
+				return v.ID + 1000000, gen.TerminateReasonNormal
+			}
 			return v.ID + 1000000, nil
 		}
 		return nil, nil
@@ -235,13 +282,13 @@ func (c19) Run(e *simkit.Env, cc any) {
 						sent[id] = "send"
 						mu.Unlock()
 					}
-				case "call":
+				case "call", "calldie":
 					mu.Lock()
 					senderOf[id] = p.PID()
 					sendInv[id] = e.Step()
 					sent[id] = "call"
 					mu.Unlock()
-					v, err := p.CallWithTimeout(poolPID, c19Item{ID: id}, 2)
+					v, err := p.CallWithTimeout(poolPID, c19Item{ID: id, Die: op.Kind == "calldie"}, 2)
 					mu.Lock()
 					callRes[id], callErr[id] = v, err
 					mu.Unlock()
@@ -294,13 +341,17 @@ func (c19) Run(e *simkit.Env, cc any) {
 			}
 			return nil
 		}
-		pid, err := n.Spawn(ProbeFactory(h), gen.ProcessOptions{})
+		home := n
+		if c.RemoteLast && ci == len(c.Clients)-1 {
+			home = rn
+		}
+		pid, err := home.Spawn(ProbeFactory(h), gen.ProcessOptions{})
 		if err != nil {
 			e.Infra("spawn client: " + err.Error())
 			return
 		}
 		e.Go(who+"-kick", func() {
-			n.Send(pid, "go")
+			home.Send(pid, "go")
 			e.WaitChan(done, 10*time.Minute)
 		})
 	}
